@@ -229,6 +229,15 @@ class AllCallables(GeneralCallables, MapCallables):
     pass
 
 
+# names (including aliases) of the condition callables that can be used in specs:
+CONDITION_CALLABLE_NAMES = frozenset(
+    name
+    for callables_cls in (GeneralCallables, MapCallables)
+    for name, attr in vars(callables_cls).items()
+    if isinstance(attr, classmethod)
+)
+
+
 class ConditionLike:
     def __or__(self, other):
         return ConditionOr(self, other)
@@ -438,6 +447,9 @@ class ConditionLike:
                     )
 
             try:
+                if cond_call_str not in CONDITION_CALLABLE_NAMES:
+                    # e.g. "value.flatten": an attribute, but not a condition callable
+                    raise AttributeError(cond_call_str)
                 cond_method = getattr(cls, cond_call_str)
             except AttributeError:
                 msg = (
